@@ -572,6 +572,37 @@ func init() {
 		if r != "" {
 			chk = r
 		}
-		return "used=" + used + " check=" + chk + " missing=" + missing
+		// the same question asked of a fresh object for the first time AFTER the other operations: the list is what the
+		// text uses, whenever it is asked
+		late := guard(func() string {
+			s2, err := p.build()
+			if err != nil {
+				return "same"
+			}
+			_ = s2.Check()
+			_, _ = s2.Example()
+			_, _ = s2.GetAST()
+			u, err := s2.UsedUserTypes()
+			got := "err"
+			if err == nil {
+				ns := make([]string, len(u))
+				for k, x := range u {
+					ns[k] = tnum(x)
+				}
+				got = strings.Join(ns, ",")
+				if len(u) == 0 {
+					got = "-"
+				}
+			}
+			if got == used {
+				return "same"
+			}
+			return got
+		})
+		out := "used=" + used + " check=" + chk + " missing=" + missing
+		if late != "same" {
+			out += " usedlate=" + late
+		}
+		return out
 	}
 }
